@@ -10,7 +10,7 @@ import tr_partition
 PID = "C10"
 PROPS_FILE = "Props/C10.v"
 MODEL_TARGETS = ["Model/Partition.vo", "Model/ClusterCase.vo", "Gen/PartitionGen.vo"]
-GEN_FILES = ["Gen/PartitionGen.v"]
+GEN_FILES = ["Gen/PartitionGen.v", "Gen/ClusterGen.v"]
 CASE_HEADER = ("From Coq Require Import List ZArith QArith.\n"
                "From EV Require Import PySlice PartitionBase PartitionGen Cluster ClusterCase Partition.\nImport ListNotations.\n")
 TRUSTED = ["translator/tr_partition.py + py2coq.py (tests/updates of partition_indices, partition_list; loop skeletons Base/PartitionBase.v checked by correspondence)",
@@ -25,7 +25,10 @@ SHARD = 100
 
 
 def translate(repo):
-    return tr_partition.translate(repo)
+    import tr_cluster
+    d = dict(tr_partition.translate(repo))
+    d.update(tr_cluster.translate(repo))
+    return d
 
 
 def _lens(rng, n):
